@@ -6,7 +6,7 @@ namespace Verif.Impl
 
 inductive File where
   | case (driver script : String)   -- a test case file (the description does not matter here)
-  | other                            -- any other file (script, driver, ...)
+  | other (tag : Nat)                -- any other file; the tag stands for its content (0 planted, 1 script skeleton, 2 default driver)
   | badJson                          -- a file that json.Unmarshal rejects
 deriving DecidableEq, Repr
 
@@ -49,8 +49,8 @@ def add (d : Dir) (caseName driver script : String) (createDriver : Bool) : Bool
   else if createDriver && d.has driver then (false, d)
   else
     let d := d.put (caseName ++ ".json") (.case driver script)
-    let d := d.put script .other
-    let d := if createDriver then d.put driver .other else d
+    let d := d.put script (.other 1)
+    let d := if createDriver then d.put driver (.other 2) else d
     (true, d)
 
 /-- number of references to a file name, in either role, over all cases -/
